@@ -6,11 +6,12 @@ From XV Require Import Lib.Sx Model.Recv Proofs.RecvP Model.Session Model.Sessio
 Import ListNotations.
 Open Scope N_scope.
 
-(* For every inbound history, every answer written carries the count the session
-   started (or was resumed) with plus the number of stanzas received before the
-   request it answers; non-stanza elements before it are not counted. *)
+(* For every inbound history, every answer the client writes (or tries to write: one per
+   request, C05_acks_answered) carries the count the session started (or was resumed)
+   with plus the number of stanzas received before the request it answers; non-stanza
+   elements before it are not counted. *)
 Theorem C09_h_exact : forall items inb nw wf k h,
-  nth_error (answers (crecv inb nw wf items)) k = Some h ->
+  nth_error (attempted (crecv inb nw wf items)) k = Some h ->
   exists pre post,
     processed nw wf items = pre ++ ISmR :: post /\
     length (filter is_r pre) = k /\
